@@ -83,6 +83,18 @@ func caseC15(c *Ctx) {
 		if deadRef && relReg && (retired > 0 || !HooksOn) && cyc >= 1 {
 			rich = true
 		}
+		if c.Case%16 == 7 && cyc == 0 {
+			// every resource slot occupied when Reset is called
+			for i := len(a.ResIDs); i < ecs.MaskTotalBits; i++ {
+				a.resRegister(fmt.Sprintf("F%d", 6800+i))
+			}
+			for id := range a.ResIDs {
+				if _, ok := a.Res.Present[id]; !ok && !a.Failed() {
+					a.Do(&Op{K: "ResAdd", ID: id})
+				}
+			}
+			a.Cov.N["reset_with_all_resources_present"]++
+		}
 		a.Do(&Op{K: "Reset"})
 		if a.Failed() {
 			break
